@@ -99,3 +99,20 @@ Proof. intros H. replace ((f * x + g * vx) * (fd * y + gd * vy) - (f * y + g * v
 (* uniform motion of the centre of mass conserves X0 VY0 - Y0 VX0 *)
 Lemma com_drift_conserves_lz dt x y vx vy : (x + dt * vx) * vy - (y + dt * vy) * vx = x * vy - y * vx.
 Proof. ring. Qed.
+
+(* composition with C03: the Kepler step of the library's model (fg_coeffs / fg_apply, compared bit for bit with
+   reb_whfast_kepler_solver there), whenever X solves the universal Kepler equation (kepler_hyp), conserves the
+   z angular momentum of the two-body state it is applied to *)
+From RV Require Import C03.Model C03.Proofs C03.Extra.
+Theorem kepler_step_conserves_lz (p : P6) (M dt r0 beta X G0 G1 G2 G3 : R) :
+  kepler_hyp p M dt r0 beta X G0 G1 G2 G3 ->
+  forall x y z vx vy vz,
+  let '(x', y', _, vx', vy', _) :=
+    fg_apply RNum (fg_coeffs RNum M dt (1 / r0) (1 / new_radius p M r0 beta G1 G2) G1 G2 G3) (x, y, z, vx, vy, vz) in
+  x' * vy' - y' * vx' = x * vy - y * vx.
+Proof.
+  intros H x y z vx vy vz. pose proof (fg_determinant p M dt r0 beta X G0 G1 G2 G3 H) as D.
+  destruct (fg_coeffs RNum M dt (1 / r0) (1 / new_radius p M r0 beta G1 G2) G1 G2 G3) as [[[fc g] fd] gdc].
+  cbv zeta in D. destruct D as [Hdet Happ]. rewrite Happ.
+  apply fg_conserves_lz. exact Hdet.
+Qed.
